@@ -42,6 +42,8 @@ CLAIMS.update({
             "2-16 connections in shared sessions with all modules and the production decorators; concurrent blocks of 2-3 requests (serializability search) and one block of 5-16 simultaneous requests (liveness) per run, under random-walk/PCT schedules with injected task stalls.", "§7 C09"),
     "C10": ("history invariants over every id the server hands out (fresh session id among live sessions, participant/entity ids never reissued per session UUID, type ids <-> names bijective, asset ids unique) and a generator micro-world (no id outstanding twice)",
             "Long create/end cycles, joins, entity/type/asset allocations, concurrent allocation blocks; in a quarter of the runs 1-8 tasks call New/Reuse on one SequentialIDGenerator under the simulated scheduler. Sequences are sampled, not enumerated.", "§7 C10"),
+    "C15": ("two-sided, conservative: a single carrier holding a token that is clearly valid under the secret currently issued (HS256, right key, iat <= now < exp with margins on the simulated clock) must be admitted and the inner handler entered once; a token not valid under any secret current during the attempt even with 15 s of leeway (every mutation, other/empty key, alg none, expired, not yet valid, no secret held) must be rejected with the inner handler never entered; everything else is not asserted",
+            "The real websocket.Server{Handshake: VerifyAuthToken} and VerifyAuthTokenHandler in front of harness-owned inner handlers; tokens minted, mutated and re-presented while the simulated clock crosses expiry and not-before and while HDS events (registered, rotated, secret lost, rotation at the very instant of a handshake) interleave with attempts; header, query and cookie carriers and their combinations. The token-mutation dimension is seeded input generation; the clock and rotation dimensions are simulation proper.", "§7 C15, §8"),
     "C18": ("per measurement: started only for a joined requester with 3-50 rounds and a wallet; exactly that many pings; one report whose signature recovers the server wallet over exactly the returned data; data names client id, session uuid, wallet; ping id set = ids issued, each once; 0 <= min <= mean <= max, p95 and last within; last = latency of the final round (rounds are given round-trip times 10 ms apart on the simulated clock, tolerance 2 ms); duplicate, unknown and replayed answers are refused and do not advance",
             "Iteration counts 0-60 and extremes, wallet strings, joined / not joined; client behaviours on the simulated clock: honest, answer a ping twice, answer unknown ids, replay an old answer after completion, restart mid-way, run a second measurement on the same connection.", "§7 C18"),
     "C19": ("independent validity decision (Keccak-256 from x/crypto/sha3, recoverability from decred RecoverCompact) against what the simulated credit service received: forwarded = valid accepted, at most once, JSON body field for field; exactly one answer per submission (accepted / bad request / too busy); the submitter is still served while the forwarder is stalled",
